@@ -1,7 +1,7 @@
 SPECIFICATION Spec
 CONSTANTS
   Deviations <- AllDevs
-  Families = {"relus_clips", "transposes"}
+  Families = {"relus_clips", "transposes", "slice_split"}
   Menu = "quick"
 INVARIANT ImplHolds
 CHECK_DEADLOCK FALSE
